@@ -155,6 +155,14 @@ Theorem C36_negative_timestamps_refuted :
 Proof. split; [exact negative_lost|exact negative_merged]. Qed.
 Print Assumptions C36_negative_timestamps_refuted.
 
+(* Tie T for the batch-extension loop of downsampleRawLoop (`for ; j < len(data) &&
+   data[j].t <= curW; j++ {}`): the comparison operator in the Go source (extracted into
+   Gen/C36.v on every run) is the inclusive one of the model's take_le — a sample exactly on
+   the window's last millisecond stays in the batch. *)
+Theorem C36_extension_loop_source : forall t w, ext_take t w = (t <=? w).
+Proof. exact ext_take_model. Qed.
+Print Assumptions C36_extension_loop_source.
+
 (* Non-vacuity: irregular series with a NaN, a window boundary and two batches
    (num_chunks = 2) at a 10 ms resolution. *)
 Example C36_nonvacuous :
